@@ -146,9 +146,16 @@ func toUnicodeChar(r comb.Result) (comb.Result, bool) {
 
 //==================================================< COMBINATORS >==================================================
 
+// maxDepth is the deepest nesting of groups and alternatives in a regular expression that the parser accepts.
+// A regular expression nested more deeply is rejected as invalid.
+const maxDepth = 10000
+
 // Parser is a parser combinator for regular expressions.
 type Parser struct {
 	m Mappers
+
+	// depth is the number of calls of expr that have not returned yet.
+	depth int
 
 	// Combinators
 	digit            comb.Parser
@@ -359,6 +366,15 @@ func (p *Parser) subexpr(in comb.Input) (comb.Output, bool) {
 // Recursive definition
 // expr --> subexpr ("|" expr)?
 func (p *Parser) expr(in comb.Input) (comb.Output, bool) {
+	// expr calls itself for every group that is opened and for every alternative that follows.
+	// The stack is finite and running out of it cannot be recovered from, so the nesting is limited.
+	if p.depth >= maxDepth {
+		return comb.Output{}, false
+	}
+
+	p.depth++
+	defer func() { p.depth-- }()
+
 	return comb.Parser(p.subexpr).CONCAT(
 		comb.ExpectRune('|').CONCAT(p.expr).OPT(),
 	).Map(p.m.ToExpr)(in)
